@@ -15,7 +15,7 @@
    wherever no int64 operation wraps: C12_int64_* and C12_no_overflow_on_domain_* make that precise (base exponent in 0..35,
    |offset| <= 2^27 forward / 2^50 backward); C12_int64_overflow_refuted shows it fails beyond; C12_no_panic_* / C12_exponent_panic_refuted
    say where a panic is (un)reachable. *)
-From Coq Require Import ZArith Reals Bool.
+From Coq Require Import ZArith Reals Bool List String.
 From Flocq Require Import Core.
 From SID Require Import Base AltKeyCore AltKey DC12.
 Open Scope Z_scope.
@@ -217,6 +217,43 @@ Theorem C12_dispatch_prop_sound : forall fwd i zs zt E O o,
   conv_prop fwd i zs zt E O (conv_model fwd i zs zt E O) o = true -> conv_spec (conv_src fwd zs E O) i (conv_tgt fwd zt E O) o.
 Proof. exact conv_prop_sound. Qed.
 Print Assumptions C12_dispatch_prop_sound.
+
+(* ---- call histories. The property quantifies over every history of calls. The models are Coq functions, so their answer is a function
+   of the step's own arguments; the entry "CallSequence" (DC12.v) carries a whole history [step ...] in one case, the implementation
+   performs it back to back after a fixed priming call, and each step is judged by the dispatch entry of its own function:
+   after ANY history the verdict of a step is step_verdict of its own arguments and observation, and a sequence without malformed steps
+   passes iff each step passes as a standalone case. A stateful implementation (memo keyed on a subset of the arguments, value stored
+   before validation, scratch not reset) therefore fails on a history although it passes on fresh single calls. ---- *)
+Theorem C12_history_independent : forall (h h' : list (Wire.val * Wire.val)) st o,
+  List.nth (List.length h) (step_verdicts (h ++ (st, o) :: nil)) Wire.bad_case = step_verdict st o /\
+  List.nth (List.length h) (step_verdicts (h ++ (st, o) :: nil)) Wire.bad_case = List.nth (List.length h') (step_verdicts (h' ++ (st, o) :: nil)) Wire.bad_case.
+Proof. exact sequence_history_independent. Qed.
+Print Assumptions C12_history_independent.
+Theorem C12_sequence_passes_iff_every_step_passes : forall h : list (Wire.val * Wire.val), existsb is_bad (step_verdicts h) = false ->
+  ((Wire.v_corr (seq_verdict (step_verdicts h)) = true /\ Wire.v_prop (seq_verdict (step_verdicts h)) = true) <->
+   Forall (fun so => Wire.v_corr (step_verdict (fst so) (snd so)) = true /\ Wire.v_prop (step_verdict (fst so) (snd so)) = true) h).
+Proof. exact sequence_passes_iff. Qed.
+Print Assumptions C12_sequence_passes_iff_every_step_passes.
+(* a step is judged by the very entry that judges a standalone case of that function *)
+Theorem C12_step_is_judged_as_a_standalone_case : forall fn args o,
+  In fn ("ConvertZToMinMaxAltitudekey" :: "ConvertAltitudekeyToMinMaxZ" :: "convertZToMinAltitudekey" :: "validateIndexExists" :: nil)%string ->
+  o <> Wire.VPanic -> step_verdict (Wire.VL (Wire.VS fn :: args)) o = Wire.run_table table_C12 no_oracle fn args o.
+Proof. exact step_verdict_standalone. Qed.
+Print Assumptions C12_step_is_judged_as_a_standalone_case.
+(* non-vacuity: the history [z2key(4,3,23,26,3); z2key(4,0,23,26,3)] — same index, target zoom, exponent and offset, other source zoom.
+   The true answers are Ok (2097152, 2621440) and an error (index 4 does not exist at zoom 0); an implementation that memoises on the
+   four shared arguments repeats the first answer: the sequence fails, and it fails at its second step *)
+Example C12_history_nonvacuous :
+  let s1 := Wire.VL (Wire.VS "ConvertZToMinMaxAltitudekey" :: Wire.VZ 4 :: Wire.VZ 3 :: Wire.VZ 23 :: Wire.VZ 26 :: Wire.VZ 3 :: nil)%string in
+  let s2 := Wire.VL (Wire.VS "ConvertZToMinMaxAltitudekey" :: Wire.VZ 4 :: Wire.VZ 0 :: Wire.VZ 23 :: Wire.VZ 26 :: Wire.VZ 3 :: nil)%string in
+  let ok := Wire.VL (Wire.VZ 2097152 :: Wire.VZ 2621440 :: nil) in
+  let err := Wire.VE (Wire.VL (Wire.VZ 0 :: Wire.VZ 0 :: nil)) in
+  Wire.v_prop (d_sequence (Wire.VL (s1 :: s2 :: nil) :: nil) (Wire.VL (ok :: err :: nil))) = true /\
+  Wire.v_corr (d_sequence (Wire.VL (s1 :: s2 :: nil) :: nil) (Wire.VL (ok :: err :: nil))) = true /\
+  Wire.v_prop (d_sequence (Wire.VL (s1 :: s2 :: nil) :: nil) (Wire.VL (ok :: ok :: nil))) = false /\
+  Wire.v_class (d_sequence (Wire.VL (s1 :: s2 :: nil) :: nil) (Wire.VL (ok :: ok :: nil))) = "-"%string /\
+  Wire.v_prop (step_verdict s1 ok) = true /\ Wire.v_prop (step_verdict s2 ok) = false.
+Proof. vm_compute. repeat split. Qed.
 
 (* ---- non-vacuity and regression witnesses ---- *)
 (* the four inputs on which the code before 84c8b2c lost altitude or refused valid input (known-findings.txt, fixed) *)
